@@ -291,6 +291,19 @@ def forgeries(t):
             r5["error_index"] = 1 if vbs else 0
             r5["varbinds"] = vbs
             yield "report-error-status-%d-%s" % (status, "echo" if vbs else "empty"), t.build(0, r5)
+    # unauthenticated Reports whose binding VALUE is itself a PDU carrying an error-status and
+    # the request-id in use (value objects are decoded lazily: anything that touches the
+    # value - converting it, formatting it - may raise the nested PDU's error, and a
+    # noSuchName escaping from there ends a walk quietly)
+    for stat, oid in list(ber.USM_STATS.items()) + [("other", (1, 3, 6, 1, 6, 3, 11, 2, 1, 3, 0))]:
+        for ptype in (ber.PDU_RESPONSE, ber.PDU_REPORT):
+            for status in (2, 5):
+                inner = t.altered_pdu(ptype)
+                inner["error_status"] = status
+                inner["error_index"] = 1
+                r7 = dict(rep)
+                r7["varbinds"] = [(oid, ("rawtlv", ber.enc_pdu(inner)))]
+                yield "report-%s-value-nested-pdu-0x%02x-status-%d" % (stat, ptype, status), t.build(0, r7)
     # the same for every other PDU type (a plaintext RESPONSE with noSuchName would end a
     # walk quietly if its error-status were looked at before the security level)
     for ptype in (ber.PDU_RESPONSE, ber.PDU_GET, ber.PDU_TRAP):
